@@ -47,6 +47,17 @@ type NamedExpr struct {
 	Where           string
 }
 
+// FuncLits are the literals written inline in one function body of a
+// contract package, in source order: integer and character literals
+// (IntLits, with repetitions) and string literals without a space, i.e. not
+// messages (StrLits).  They let a tie reach constants the source never names.
+type FuncLits struct {
+	Pkg, Func string
+	IntLits   []*big.Int
+	StrLits   []string
+	Where     string
+}
+
 func (e NamedExpr) CoqName() string { return "p_" + e.Pkg + "_" + e.Func + "_" + e.Name + "_expr" }
 
 // CoqName is p_<pkg>_<name> (p_<pkg>_<func>_<name> for local constants).
@@ -76,6 +87,7 @@ type Gate struct {
 type Params struct {
 	Consts        []Const
 	Exprs         []NamedExpr
+	Lits          []FuncLits
 	VersionFile   string
 	FsContracts   []string
 	MainContracts []string
@@ -619,6 +631,35 @@ func collect(res *Params, pkgs []*packages.Package, fset *token.FileSet, rel fun
 							name := x.Name.Name
 							if x.Recv != nil && len(x.Recv.List) == 1 {
 								name = typeName(x.Recv.List[0].Type) + "_" + name
+							}
+							if p.Name != "deploy" {
+								fl := FuncLits{Pkg: p.Name, Func: name, Where: rel(x.Pos())}
+								ast.Inspect(x.Body, func(m ast.Node) bool {
+									if gd, ok := m.(*ast.GenDecl); ok && gd.Tok == token.CONST {
+										return false // named: already a p_ constant
+									}
+									bl, ok := m.(*ast.BasicLit)
+									if !ok {
+										return true
+									}
+									v := constOf(bl)
+									if v == nil {
+										return true
+									}
+									switch {
+									case (bl.Kind == token.INT || bl.Kind == token.CHAR) && v.Kind() == constant.Int:
+										z, _ := new(big.Int).SetString(v.ExactString(), 10)
+										fl.IntLits = append(fl.IntLits, z)
+									case bl.Kind == token.STRING && v.Kind() == constant.String:
+										if sv := constant.StringVal(v); !strings.Contains(sv, " ") {
+											fl.StrLits = append(fl.StrLits, sv)
+										}
+									}
+									return true
+								})
+								if len(fl.IntLits) > 0 || len(fl.StrLits) > 0 {
+									res.Lits = append(res.Lits, fl)
+								}
 							}
 							walk(x.Body, name)
 						}
